@@ -406,10 +406,23 @@ impl PatProp for Coherence {
                 if !matches!(lf, Out::Panic(_)) && lim != want {
                     return Verdict::Fail(Fail::new("is_match-vs-find", format!("backtrack_limit(2): find = {}", lf.show()), format!("is_match = {}", lim.show())));
                 }
-                let fi = engine::find_iter_spans(lre, t, t.len() + 3);
-                let ci = caps_iter_spans(lre, t, t.len() + 3);
-                if !matches!(fi, Out::Panic(_)) && !matches!(ci, Out::Panic(_)) && fi != ci {
-                    return Verdict::Fail(Fail::new("find_iter-vs-captures_iter", format!("backtrack_limit(2): find_iter = {}", fi.show()), format!("captures_iter = {}", ci.show())));
+                // whole histories, pulled on after Err items
+                let bound = t.len() + 4;
+                let hist = catch_unwind(AssertUnwindSafe(|| {
+                    let f: Vec<String> = lre.find_iter(t).take(bound).map(|m| match m {
+                        Ok(m) => format!("({},{})", m.start(), m.end()),
+                        Err(e) => format!("Err({})", engine::err_kind(&e)),
+                    }).collect();
+                    let c: Vec<String> = lre.captures_iter(t).take(bound).map(|c| match c {
+                        Ok(c) => c.get(0).map_or("None".to_string(), |m| format!("({},{})", m.start(), m.end())),
+                        Err(e) => format!("Err({})", engine::err_kind(&e)),
+                    }).collect();
+                    (f, c)
+                }));
+                if let Ok((f, c)) = hist {
+                    if f != c {
+                        return Verdict::Fail(Fail::new("find_iter-vs-captures_iter", format!("backtrack_limit(2): find_iter = {:?}", f), format!("captures_iter = {:?}", c)));
+                    }
                 }
             }
         }
